@@ -84,8 +84,12 @@ static double modulo(double x, double y) {
 
 double elliptical_angle_transform(double angle, double radius_x, double radius_y) {
     if (angle == 0 || angle == M_PI || radius_x == radius_y) return angle;
-    double frac = angle - (modulo(angle + M_PI, 2 * M_PI) - M_PI);
-    double ell_angle = frac + atan2(radius_x * sin(angle), radius_y * cos(angle));
+    // Split off whole turns first and transform the principal value itself,
+    // so that rounding at odd multiples of pi cannot put the 2 parts on
+    // different sides of the branch cut of atan2 (a full turn apart).
+    const double principal = modulo(angle + M_PI, 2 * M_PI) - M_PI;
+    const double frac = angle - principal;
+    double ell_angle = frac + atan2(radius_x * sin(principal), radius_y * cos(principal));
     return ell_angle;
 }
 
